@@ -13,7 +13,11 @@ RULE = ("random event histories for 1-2 configured instruments (plus items for a
         "u64::MAX in any order; magnitude - prices at 1e-8 and at 1e12 with amounts 1e-8 ... 1e12 (every product within 28 digits); shaped - uncrossed and "
         "locked books (bids drawn below asks) and books one side of which never receives a level; long - sides of 100-260 levels with single upserts at "
         "front / middle / back and update lists of up to 300 levels; every class adds `depth k d` = snapshot(d) for d in {0, 1, len-1, len, len+1, 2..9, "
-        "100, usize::MAX}. corpus/C05/dom_input_domain.ops holds one hand-written case per class. A case is distinct by the SHA-1 of its op lines and "
+        "100, usize::MAX}. corpus/C05/dom_input_domain.ops holds one hand-written case per class. Configuration-shape family (one `cfg` case per ten random ones, own "
+        "random stream): `init n` with n in {0, 3, 5, 8, 12} configured instruments instead of 1-2 - no instrument at all (every event is for a non-configured "
+        "key, the manager runs over an empty OrderBookMapMulti) and many instruments of which only 1-3 (first / middle / last key) ever receive an event, "
+        "plus the non-configured keys n and n+7; the `mgr` replay prints every configured book, so the untouched ones are compared with OrderBook::default(); "
+        "corpus/C05/cfg_instrument_count.ops. A case is distinct by the SHA-1 of its op lines and "
         "non-trivial when the implementation's observation block changes at least once")
 ASSUMPTIONS = [
     "every Snapshot event carries sides with pairwise distinct prices and non-zero amounts (OrderBook::new sorts but neither dedups nor drops zeros; "
